@@ -717,6 +717,14 @@ def _cases(tier, kind):
                 if salt % 4 == 0:
                     # the original edges carry an attribute named like the node attribute: in node mode it must not count
                     yield dict(edges=[[u, v, (9 if wt == "int" else 9.5)] for u, v in E], nodes=nl, mode="node", wt=wt, k=k, ign=ign, sc=sc, fam="dag/node/edgeattr/" + vn)
+    # ---- k-MPE, values on nodes, a node of a parallel branch with error scale 0 and k = None (k = 3 in this universe is mapped to None by p_C08):
+    #      the default k is the width over the elements that still count
+    if kind == "mpe":
+        for E, nl, sc in (([("s", "a"), ("s", "b"), ("a", "t"), ("b", "t")], [["s", 2], ["a", 2], ["b", 3], ["t", 2]], [["b", 0]]),
+                          ([("s", "a"), ("s", "b"), ("a", "t"), ("b", "t")], [["s", 4], ["a", 1], ["b", 3], ["t", 4]], [["a", 0], ["s", 0.5]]),
+                          ([("x", "y"), ("x", "z"), ("y", "w"), ("z", "w"), ("x", "w")], [["x", 3], ["y", 1], ["z", 1], ["w", 3]], [["y", 0], ["z", 0]])):
+            for wt in ("int", "float"):
+                yield dict(edges=[[u, v, None] for u, v in E], nodes=[[a, (float(x) if wt == "float" else x)] for a, x in nl], mode="node", wt=wt, k=3, ign=[], sc=sc, fam="dag/node/sc0/k=None")
     # ---- DAG model, values on nodes + solution_weights_superset with an offered weight that stays unused BEFORE a used one
     if kind == "lae":
         for E, nl in (([("x", "y"), ("y", "z")], [["x", 3], ["y", 3], ["z", 3]]),
